@@ -4,6 +4,7 @@ import (
 	"bytes"
 	"crypto/rand"
 	"fmt"
+	"net"
 	"strings"
 	"testing"
 	"testing/synctest"
@@ -27,6 +28,8 @@ type c06Case struct {
 	Transport  string
 	ServerName string
 	OffsetMs   int64 // client clock - server clock
+	NumConn    int   `json:",omitempty"` // connections of the session, handshaking at the same time (0 = 1)
+	Managed    bool  `json:",omitempty"` // the user is in the user database (authorisation takes a while) instead of the bypass list
 }
 
 var c06EncByte = map[string]byte{"plain": 0, "aes-256-gcm": 1, "aes-gcm": 1, "chacha20-poly1305": 2, "aes-128-gcm": 3}
@@ -50,7 +53,16 @@ func c06Inner(c c06Case) (vk.Result, error) {
 	cfg := vClientCfg{UID: c.UID, Method: c.Method, Enc: c.Enc, NumConn: 1, Browser: c.Browser, Transport: c.Transport, ServerName: c.ServerName, UDP: c.UDP}
 	raw := cfg.raw([32]byte{})
 	uid := raw.UID
-	srv := newVSrv(vSrvOpts{Bypass: [][]byte{uid}, Methods: []string{c.Method}, Tap: true, AutoNet: true})
+	opts := vSrvOpts{Bypass: [][]byte{uid}, Methods: []string{c.Method}, Tap: true, AutoNet: true}
+	if c.Managed {
+		mgr := newFakeManager()
+		var a [16]byte
+		copy(a[:], uid)
+		mgr.users[a] = &vFakeUser{UpRate: 1 << 40, DownRate: 1 << 40, UpCredit: 1 << 40, DownCredit: 1 << 40, Expiry: time.Now().Unix() + 1<<20, Cap: 10}
+		mgr.authYield = 500
+		opts.Bypass, opts.Manager = nil, mgr
+	}
+	srv := newVSrv(opts)
 	defer srv.stop()
 	srv.serve()
 	offset := time.Duration(c.OffsetMs) * time.Millisecond
@@ -68,29 +80,53 @@ func c06Inner(c c06Case) (vk.Result, error) {
 		defer cdn.front.Close()
 		dialer = cdn.dialer()
 	}
-	tr := remote.Transport.CreateTransport()
-	conn, err := dialer.Dial("tcp", remote.RemoteAddr)
-	if err != nil {
-		return res, fmt.Errorf("harness: dial: %v", err)
+	t0 := time.Now()
+	nconn := c.NumConn
+	if nconn < 1 {
+		nconn = 1
 	}
 	type hs struct {
 		key [32]byte
 		err error
 	}
-	ch := make(chan hs, 1)
-	go func() {
-		k, err := tr.Handshake(conn, auth)
-		ch <- hs{k, err}
-	}()
+	var conn net.Conn
+	chs := make([]chan hs, nconn)
+	for i := 0; i < nconn; i++ {
+		// as client.MakeSession does: one transport per connection, all started at the same time
+		tr := remote.Transport.CreateTransport()
+		cn, err := dialer.Dial("tcp", remote.RemoteAddr)
+		if err != nil {
+			return res, fmt.Errorf("harness: dial: %v", err)
+		}
+		if i == 0 {
+			conn = cn
+		}
+		ch := make(chan hs, 1)
+		chs[i] = ch
+		go func() {
+			k, err := tr.Handshake(cn, auth)
+			ch <- hs{k, err}
+		}()
+	}
+	synctest.Wait()
+	time.Sleep(time.Second)
 	synctest.Wait()
 	var h hs
-	select {
-	case h = <-ch:
-	default:
-		return res, vk.Violatef("handshake of a correctly configured client did not complete")
-	}
-	if h.err != nil {
-		return res, vk.Violatef("handshake of a correctly configured client (clock offset %v) failed: %v", offset, h.err)
+	for i, ch := range chs {
+		var hi hs
+		select {
+		case hi = <-ch:
+		default:
+			return res, vk.Violatef("handshake of a correctly configured client did not complete (connection %d of %d)", i, nconn)
+		}
+		if hi.err != nil {
+			return res, vk.Violatef("handshake of a correctly configured client (clock offset %v, connection %d of %d) failed: %v", offset, i, nconn, hi.err)
+		}
+		if i == 0 {
+			h = hi
+		} else if hi.key != h.key {
+			return res, vk.ViolateSig("key-mismatch", "connections 0 and %d of one session (same UID and session id, handshaking at the same time) were given different session keys", i)
+		}
 	}
 	// server side view
 	srv.sta.Panel.activeUsersM.RLock()
@@ -107,6 +143,9 @@ func c06Inner(c c06Case) (vk.Result, error) {
 	user.sessionsM.RUnlock()
 	if sesh == nil {
 		return res, vk.Violatef("server has no session with the configured session id %d (it has %d session(s))", c.SessionID, nsesh)
+	}
+	if nsesh != 1 {
+		return res, vk.Violatef("server keeps %d sessions for the user after %d connection(s) of one session id", nsesh, nconn)
 	}
 	if sesh.GetSessionKey() != h.key {
 		return res, vk.ViolateSig("key-mismatch", "client and server hold different session keys after the handshake")
@@ -141,7 +180,7 @@ func c06Inner(c c06Case) (vk.Result, error) {
 		transport = TLS{}
 	}
 	pv := srv.pv
-	sta2 := &State{StaticPv: &pv, UsedRandom: map[[32]byte]int64{}, WorldState: common.WorldState{Rand: rand.Reader, Now: time.Now}}
+	sta2 := &State{StaticPv: &pv, UsedRandom: map[[32]byte]int64{}, WorldState: common.WorldState{Rand: rand.Reader, Now: func() time.Time { return t0 }}}
 	ci, _, aerr := AuthFirstPacket(first, transport, sta2)
 	if aerr != nil {
 		return res, vk.Violatef("the client's first packet does not authenticate on an independent server state: %v", aerr)
@@ -163,6 +202,12 @@ func c06Inner(c c06Case) (vk.Result, error) {
 	}
 	res.Key = fmt.Sprintf("%s/%s/%s/%v/%s/%s/%d", strings.ToLower(c.Browser), strings.ToLower(c.Transport), c.Enc, c.UDP, sidClass, nameClass, len(c.Method))
 	res.Labels = []string{"transport=" + strings.ToLower(c.Transport), "browser=" + strings.ToLower(c.Browser), sidClass, nameClass}
+	if nconn > 1 {
+		res.Labels = append(res.Labels, "parallel-connections")
+	}
+	if c.Managed {
+		res.Labels = append(res.Labels, "managed-user")
+	}
 	if len(first) > 1500 {
 		res.Labels = append(res.Labels, "first-packet>1500")
 	}
@@ -181,6 +226,8 @@ func c06Gen(rt *rapid.T) c06Case {
 	c.Transport = rapid.SampledFrom([]string{"direct", "direct", "direct", "cdn"}).Draw(rt, "transport")
 	c.ServerName = rapid.SampledFrom([]string{"www.bing.com", "random", "a.example.org", "x.co", "very-long-name-0123456789.sub.domain.example.com"}).Draw(rt, "sn")
 	c.OffsetMs = rapid.OneOf(rapid.Int64Range(-178000, 178000), rapid.SampledFrom([]int64{0, -178999, 178999, 178000, -178000, 500, -500})).Draw(rt, "offset")
+	c.NumConn = rapid.SampledFrom([]int{1, 1, 2, 3, 6}).Draw(rt, "numconn")
+	c.Managed = rapid.Bool().Draw(rt, "managed")
 	return c
 }
 
